@@ -73,6 +73,25 @@ func (e *Engine) Explore(fn *ssa.Function, opts ExploreOpts) *HarnessResult {
 		opts.Workers = runtime.NumCPU()
 	}
 	var wg sync.WaitGroup
+	if os.Getenv("GOSYM_DEBUG") != "" {
+		doneCh := make(chan struct{})
+		defer close(doneCh)
+		go func() {
+			tk := time.NewTicker(15 * time.Second)
+			defer tk.Stop()
+			for {
+				select {
+				case <-doneCh:
+					return
+				case <-tk.C:
+					mu.Lock()
+					fmt.Fprintf(os.Stderr, "[progress %s] paths=%d completed=%d violations=%d inconclusive=%d queue=%d elapsed=%v\n",
+						res.Harness, res.Paths, res.Completed, len(res.Violations), res.Inconclusive, len(stack), time.Since(t0).Round(time.Second))
+					mu.Unlock()
+				}
+			}
+		}()
+	}
 	for w := 0; w < opts.Workers; w++ {
 		wg.Add(1)
 		go func(wid int) {
@@ -161,13 +180,13 @@ func (e *Engine) Explore(fn *ssa.Function, opts ExploreOpts) *HarnessResult {
 				for _, w := range pr.NewWork {
 					stack = append(stack, workItem{w})
 				}
-				if opts.MaxPaths > 0 && res.Paths >= opts.MaxPaths && (len(stack) > 0 || active > 0) {
+				if !stop && opts.MaxPaths > 0 && res.Paths >= opts.MaxPaths && (len(stack) > 0 || active > 0) {
 					stop = true
 					res.Stopped = fmt.Sprintf("path limit %d reached with work remaining", opts.MaxPaths)
 					res.Inconclusive++
 					res.InconclMsgs = append(res.InconclMsgs, res.Stopped)
 				}
-				if !opts.Deadline.IsZero() && time.Now().After(opts.Deadline) && (len(stack) > 0 || active > 0) {
+				if !stop && !opts.Deadline.IsZero() && time.Now().After(opts.Deadline) && (len(stack) > 0 || active > 0) {
 					stop = true
 					res.Stopped = "time limit reached with work remaining"
 					res.Inconclusive++
